@@ -94,12 +94,12 @@ Definition code_of_vals (el so do_ size1 : Z) (lcb : list stride) (vals : list (
 Lemma lower_dyn_unfold src dst el rshape smd dmd so do_ bv :
   off_val src smd = Some so -> off_val dst dmd = Some do_ -> bound_vals (tstrides src) rshape = Some bv ->
   length (all_strides src) = length (all_strides dst) ->
-  lower_dyn src dst el rshape smd dmd =
+  lower_dyn_body src dst el rshape smd dmd =
   code_of_vals el so do_ (zprod rshape * el) (lccb src dst 1)
     (map snd (sort_desc_d (remaining_dyn (lccb src dst 1) (all_strides src)
        (combine (concat bv) (combine (step_vals_md src (concat bv) el smd) (step_vals_md dst (concat bv) el dmd)))))).
 Proof.
-  intros H1 H2 H3 H4. unfold lower_dyn. rewrite H1, H2, H3, H4, Nat.eqb_refl. cbn [negb].
+  intros H1 H2 H3 H4. unfold lower_dyn_body. rewrite H1, H2, H3, H4, Nat.eqb_refl. cbn [negb].
   destruct (sort_desc_d _) as [|[s [[hb hs] hd]] loops]; [reflexivity|].
   cbn [map snd code_of_vals]. destruct (sval (last (lccb src dst 1) (None, None))) as [[ls lb]|]; [|reflexivity].
   rewrite !map_map. reflexivity.
@@ -118,6 +118,7 @@ Section DynCopy.
   Hypothesis Hel : 0 < el.
   Hypothesis Hso : offset src = Some so.
   Hypothesis Hdo : offset dst = Some do_.
+  Hypothesis Hrank : rshape <> [].                               (* rank 0: the pass asserts *)
   Hypothesis Hshape : rshape = shape_of rs.                      (* the inner tiles divide the run-time sizes *)
   Hypothesis Hlcb : lccb src dst 1 = lccb rs rd 1.               (* the block does not depend on dynamic bounds *)
   Hypothesis Hval : map (fun s => value_in s (lccb rs rd 1)) (all_strides src) =
@@ -159,6 +160,9 @@ Section DynCopy.
     pose proof (bound_vals_resolve (tstrides src) rshape Hlen Hrs) as Hbv.
     assert (Ho1 : off_val src smd = Some so) by (unfold off_val; rewrite Hso; reflexivity).
     assert (Ho2 : off_val dst dmd = Some do_) by (unfold off_val; rewrite Hdo; reflexivity).
+    assert (Ew : lower_dyn src dst el rshape smd dmd = lower_dyn_body src dst el rshape smd dmd).
+    { unfold lower_dyn. destruct rshape; [elim Hrank; reflexivity|reflexivity]. }
+    rewrite Ew.
     rewrite (lower_dyn_unfold src dst el rshape smd dmd so do_ _ Ho1 Ho2 Hbv strides_len).
     assert (Hfb : concat (map (map sbnd) (res_ts (tstrides src) rshape)) = map sbnd (all_strides rs))
       by (unfold all_strides, rs, resolve; cbn [tstrides]; rewrite concat_map; reflexivity).
